@@ -177,6 +177,7 @@ func runCmapCase(c *Ctx, ops []mapOp, probes []int) {
 }
 
 func propC17(c *Ctx) {
+	propScaleTables(c, "C17")
 	ends := []int{0, 'a', 0xff, 0x100, 0x101, 0x2000, 0xfffe}
 	refs := []string{"1", "2", "n"}
 	var alpha []mapOp
